@@ -445,7 +445,8 @@ Proof.
     apply Forall_snoc; [exact F|]. eapply Forall_nth_error; eauto.
   - (* OGetDomain *) destruct (nth_error e i) eqn:E; [|exact F].
     apply Forall_snoc; [exact F|]. pose proof (Forall_nth_error _ _ _ _ F E) as [_ I].
-    split; simpl; [intros x []|exact I].
+    split; simpl; [intros x []|]. apply Forall_forall. intros x Hx. apply filter_In in Hx as [Hx _].
+    revert x Hx. apply Forall_forall. exact I.
   - (* OFieldSource *) destruct (nth_error e i) eqn:E; [|exact F].
     apply Forall_snoc; [exact F|]. eapply Forall_nth_error; eauto.
   - (* OConvert *) destruct (nth_error e i) as [f|] eqn:E; [|exact F].
@@ -613,7 +614,7 @@ Proof.
     eapply field_files_in_env; eauto.
   - destruct (nth_error e i) as [f|] eqn:E; [|apply incl_refl]. apply env_files_snoc.
     eapply incl_tran; [|eapply field_files_in_env; eauto]. unfold field_files. simpl.
-    apply incl_appr, incl_refl.
+    apply incl_appr. apply flat_cons_incl. intros x Hx. apply filter_In in Hx. tauto.
   - destruct (nth_error e i) eqn:E; [|apply incl_refl]. apply env_files_snoc.
     eapply field_files_in_env; eauto.
   - destruct (nth_error e i) as [f|] eqn:E; [|apply incl_refl]. unfold convert.
